@@ -885,10 +885,13 @@ func (c *compiler) evalCallExpression(node *ast.CallExpression) (interface{}, er
 					block:    node.Block,
 				}
 				hv := reflect.ValueOf(hargs)
-				if !hv.Type().AssignableTo(arg) {
+				if !hv.Type().AssignableTo(arg) && hv.Type().ConvertibleTo(arg) {
 					// a defined type over HelperContext
 					hv = hv.Convert(arg)
 				}
+				// (a parameter that only implements the interface -- a pointer to
+				// HelperContext, a struct embedding it -- cannot be supplied: the
+				// call reports that as its error)
 				args = append(args, hv)
 				return
 			}
